@@ -13,7 +13,14 @@
 (*                "annotation" (same key, annotations only), "ls" (label   *)
 (*                LS), "none"                                              *)
 (*          cfg   [cfs : BOOLEAN, ratio : [num, den]]  CFS quota enabled,  *)
-(*                node CPU normalization ratio num/den (num = 0: none)     *)
+(*                node CPU normalization ratio num/den (num = 0: none).    *)
+(*                cfg is STATE of the node agent: it is what the LAST      *)
+(*                delivered NodeSLO / Node object says (CfsAfterSLO,       *)
+(*                NodeRatios below), not a per-pod input                   *)
+(*          The declared amounts are those of the pod SPEC: an extended-   *)
+(*          resource-spec annotation the pod carried before admission      *)
+(*          (equal, subset, superset, other amounts, stale) is not a       *)
+(*          declaration and has no influence on what is prescribed         *)
 (* Output : pod / per container  [shares, quota, mem], each [set, v]       *)
 (*          (set = FALSE: the hook did not inject that value)              *)
 (*                                                                         *)
@@ -94,17 +101,43 @@ InForce(o) == [shares |-> IF o.shares.set THEN o.shares.v ELSE SharesMin,
                quota  |-> IF o.quota.set  THEN o.quota.v  ELSE Unlimited,
                mem    |-> IF o.mem.set    THEN o.mem.v    ELSE Unlimited]
 
-\* the whole statement for one pod: pod = observed pod-level values, conts[i] = observed values of container i
-HookOK(cs, mark, cfg, pod, conts) ==
-    IF ~IsBE(mark)
-    THEN Untouched(pod) /\ \A i \in Idx(cs) : Untouched(conts[i])                       \* (iii)
-    ELSE IF ~UsesBatch(cs)
-    THEN TRUE            \* BE pod that declares no batch amount at all: not in the statement's scope (noted)
-    ELSE /\ Len(conts) = Len(cs)
-         /\ Injected(pod, WantPod(cs, cfg))                                              \* (ii)
-         /\ \A i \in Idx(cs) :                                                           \* (i)
+\* the statement for one pod, in its three parts. conts[i] = observed values of container i, pod = observed pod-level values
+Scope(cs, mark) == IsBE(mark) /\ UsesBatch(cs)   \* a BE pod that declares no batch amount at all is not in the statement's scope (noted)
+\* (i) + (iii) container level
+ContsOK(cs, mark, cfg, conts) ==
+    /\ Len(conts) = Len(cs)
+    /\ IF ~IsBE(mark) THEN \A i \in Idx(cs) : Untouched(conts[i])                        \* (iii)
+       ELSE IF ~UsesBatch(cs) THEN TRUE
+       ELSE \A i \in Idx(cs) :                                                           \* (i)
                IF Declares(cs[i]) THEN Injected(conts[i], WantContainer(cs[i], cfg))
                \* a container that declares nothing: left alone (= unlimited) or given the unlimited conversion
                ELSE Untouched(conts[i]) \/ Injected(conts[i], WantContainer(cs[i], cfg))
-         /\ \A i \in Idx(cs) : NoTighter(InForce(pod), InForce(conts[i]))               \* (R) on what was observed
+\* (ii) + (iii) pod level
+PodOK(cs, mark, cfg, pod) ==
+    IF ~IsBE(mark) THEN Untouched(pod)                                                   \* (iii)
+    ELSE IF ~UsesBatch(cs) THEN TRUE
+    ELSE Injected(pod, WantPod(cs, cfg))                                                 \* (ii)
+\* (R) on what was observed (pod and containers observed under the same configuration)
+RelOK(cs, mark, pod, conts) ==
+    Scope(cs, mark) => \A i \in Idx(cs) : NoTighter(InForce(pod), InForce(conts[i]))
+
+\* the whole statement for one pod
+HookOK(cs, mark, cfg, pod, conts) ==
+    ContsOK(cs, mark, cfg, conts) /\ PodOK(cs, mark, cfg, pod) /\ RelOK(cs, mark, pod, conts)
+
+(******************* the configuration in force (state of the agent) ********)
+\* "the node's CPU normalization ratio when one above 1 is configured": what is configured is what the LAST delivered
+\* Node object carries.  kind = "valid"  : the annotation holds the positive number num/den  -> that ratio
+\*                       kind = "none"   : no annotation (removed / never set)             -> no ratio
+\*                       kind = "invalid": the annotation is not a positive number. The statement ranges over "all scale
+\*                                         ratios" and does not say what a malformed value configures: either nothing
+\*                                         (no ratio) or the delivery is ignored (the ratio in force stays)
+NoRatio == [num |-> 0, den |-> 1]
+NodeRatios(cur, kind, num, den) ==
+    IF kind = "valid" THEN {[num |-> num, den |-> den]}
+    ELSE IF kind = "none" THEN {NoRatio}
+    ELSE {NoRatio, cur}
+\* CFS quota of BE pods is disabled exactly when the last delivered NodeSLO enables BE cpu suppression by the cfsQuota
+\* policy (policy "" = strategy absent: the default strategy, which is not the cfsQuota policy)
+CfsAfterSLO(enable, policy) == ~(enable /\ policy = "cfsQuota")
 =============================================================================
